@@ -217,6 +217,8 @@ def make_units(tier):
                 continue  # quick: the second default policy only for the fragmenting configurations of the endings family
             units.append(dict(u, src='c10', monitors=['legality']))
         for u in c09.make_units(tier):
+            if u.get('kind') == 'collector':
+                continue
             if u['bound'] > 1:
                 continue  # quick: the cancel family at bound 1 under both policies (bound 2 is in C09's own check and in the thorough tier)
             units.append(dict(u, src='c09', monitors=['legality']))
@@ -234,6 +236,8 @@ def make_units(tier):
     for fam, src in ((c10._base_make_units(tier), 'c10'), (c09.make_units(tier), 'c09')):
         seen = set()
         for u in fam:
+            if u.get('kind') == 'collector':
+                continue
             if u['flavour'] == 'tcp':
                 units.append(dict(u, src=src, monitors=['legality']))
                 continue
